@@ -69,7 +69,7 @@ def window_sessions(rnd, n, thorough):
             # one negotiated by the Forward Open that finally succeeded
             sc["target"]["policy"] = "AllRefused"
             calls = [{"api": "open"}, {"api": "_env", "intent": {"policy": pol}}] + calls
-        if i % 7 == 1:
+        if i % 5 == 1:          # (not i % 7: firmware cycles with period 7, policy with period 2; this residue meets every combination)
             # close and open again on the same driver object (same target policy): the second session negotiates like the first
             calls = calls[:-1] + [{"api": "close"}, {"api": "open"}, S.read_call(mids[:8]), S.read_call([R([(big[0]["name"], [])], count=big[0]["dims"][0])]), {"api": "close"}]
         if i % 7 == 5:
